@@ -974,11 +974,16 @@ pub fn sweep(s: &mut WalletSim, op: &Op, ch: &mut Choices, ctx: &mut RunCtx, pos
         ctx.oracle("library_read_consistent_under_concurrent_commit");
         let accounts_b = s.accounts.clone();
         let (net_b, clock_b) = (s.net, s.clock.clone());
+        let pre_copy = scratch.join("pre").join("wallet.db");
+        // what the reader asks about is fixed beforehand, from the pre-state
+        let args_b: Vec<Vec<zcash_pool_migration::engine::MigrationTransaction>> = {
+            let c = open_conn(&pre_copy, false);
+            accounts_b.iter().map(|a| crate::migration::pending_transactions(net_b, &c, *a)).collect()
+        };
         let expect = |path: &std::path::Path| -> Vec<(String, String)> {
             let c = open_conn(path, false);
-            lib_read(&c, net_b, &clock_b, &accounts_b)
+            lib_read(&c, net_b, &clock_b, &accounts_b, &args_b)
         };
-        let pre_copy = scratch.join("pre").join("wallet.db");
         let want_pre = expect(&pre_copy);
         let want_post = expect(&ref_path);
         if want_pre != want_post {
@@ -991,7 +996,7 @@ pub fn sweep(s: &mut WalletSim, op: &Op, ch: &mut Choices, ctx: &mut RunCtx, pos
                     LIB_STEP.with(|c| c.set(c.get() + 1));
                     false
                 }));
-                let _ = lib_read(&conn2, net_b, &clock_b, &accounts_b);
+                let _ = lib_read(&conn2, net_b, &clock_b, &accounts_b, &args_b);
                 conn2.progress_handler(1, None::<fn() -> bool>);
                 (LIB_STEP.with(|c| c.get()).max(1), LIB_MARKS.with(|m| m.borrow().clone()))
             };
@@ -1010,6 +1015,7 @@ pub fn sweep(s: &mut WalletSim, op: &Op, ch: &mut Choices, ctx: &mut RunCtx, pos
             let op2 = op.clone();
             let accounts_c = accounts_b.clone();
             let clock_c = clock_b.clone();
+            let args_c = args_b.clone();
             let (reader_view, writer_res) = on_fresh_thread(thread_seed, knobs, move || {
                 let c2 = unsafe { &*c2_ptr.get() };
                 let cnt = Rc::new(Cell::new(0u64));
@@ -1037,7 +1043,7 @@ pub fn sweep(s: &mut WalletSim, op: &Op, ch: &mut Choices, ctx: &mut RunCtx, pos
                     let f = &hh;
                     (f.0)()
                 }));
-                let view = catch(|| lib_read(c2, net_b, &clock_c, &accounts_c));
+                let view = catch(|| lib_read(c2, net_b, &clock_c, &accounts_c, &args_c));
                 c2.progress_handler(1, None::<fn() -> bool>);
                 let w = wres.borrow_mut().take();
                 (view, w)
@@ -1134,8 +1140,9 @@ thread_local! {
     static LIB_MARKS: RefCell<Vec<u64>> = const { RefCell::new(Vec::new()) };
 }
 
-/// Library-level reads, one entry per call (each must be consistent in itself whatever a writer does meanwhile).
-fn lib_read(c: &Connection, net: LocalNetwork, clock: &SimClock, accounts: &[AccountUuid]) -> Vec<(String, String)> {
+/// The library's documented snapshot reads, one entry per call (each must be consistent in itself whatever a
+/// writer does meanwhile). `args` are the migration transactions asked about, per account, fixed beforehand.
+fn lib_read(c: &Connection, net: LocalNetwork, clock: &SimClock, accounts: &[AccountUuid], args: &[Vec<zcash_pool_migration::engine::MigrationTransaction>]) -> Vec<(String, String)> {
     let mut out = vec![];
     {
         let db = WalletDb::from_connection(c, net, clock.clone(), ());
@@ -1145,7 +1152,7 @@ fn lib_read(c: &Connection, net: LocalNetwork, clock: &SimClock, accounts: &[Acc
         }));
     }
     for (i, a) in accounts.iter().enumerate() {
-        out.extend(crate::migration::render_migration_reads(net, c, *a, &format!("acct{i}"), &|| LIB_MARKS.with(|m| m.borrow_mut().push(LIB_STEP.with(|c| c.get())))));
+        out.extend(crate::migration::snapshot_reads(net, c, *a, &args[i], &format!("acct{i}"), &|| LIB_MARKS.with(|m| m.borrow_mut().push(LIB_STEP.with(|c| c.get())))));
     }
     out
 }
